@@ -9,6 +9,7 @@ import (
 	"reflect"
 	"sort"
 	"strings"
+	"sync/atomic"
 	"time"
 
 	"google.golang.org/grpc/balancer"
@@ -138,6 +139,17 @@ type refSlot struct {
 	refreshing bool
 	gone       bool
 	swaps      int
+}
+
+// liveConns: connections the balancer created and has neither removed nor seen shut down.
+func (w *poolWorld) liveConns() int {
+	n := 0
+	for _, sc := range w.cc.scs {
+		if !sc.removed && !sc.shutdown {
+			n++
+		}
+	}
+	return n
 }
 
 func (s *refSlot) String() string { return fmt.Sprintf("slot%d(%v)", s.idx, s.cur) }
@@ -352,7 +364,7 @@ func (w *poolWorld) Ops() []string {
 		}
 		open++
 		for _, o := range a.Done {
-			if o == "cde" && !(c.hasDL && !now.Before(c.deadline)) {
+			if (o == "cde" || o == "cdeb") && !(c.hasDL && !now.Before(c.deadline)) {
 				continue
 			}
 			if strings.HasPrefix(o, "ok:") && c.cmd != "bind" {
@@ -555,6 +567,16 @@ func (w *poolWorld) Do(op string) {
 		fmt.Sscanf(args[0], "%d", &n)
 		w.s.AdvanceBy(time.Duration(n)*ms + slack)
 		w.s.WaitQuiescent()
+	case "keys":
+		// setup only: channel args[0] has had args[1] keys bound to it. Stands for that many BIND
+		// replies (a history no bounded search can afford); the per-channel key counter is the only
+		// trace of them that a later placement decision could read.
+		var i, n int
+		fmt.Sscanf(args[0], "%d", &i)
+		fmt.Sscanf(args[1], "%d", &n)
+		if ref := w.gb.scRefs[w.cc.scs[i]]; ref != nil {
+			atomic.StoreInt32(&ref.affinityCnt, int32(n))
+		}
 	case "fail":
 		w.cc.failFactory = args[0] == "on"
 	case "cancel":
@@ -1252,6 +1274,11 @@ func (w *poolWorld) doDone(i int, outcome string) {
 		di.Err = unavailErr
 	case outcome == "cde":
 		di.Err = cdeErr
+	case outcome == "cdeb":
+		// the client-side deadline ended a call that had already sent and received bytes (a stream
+		// that stalled): still a call that "ends with a client-side deadline-exceeded error"
+		di.Err, di.BytesSent, di.BytesReceived = cdeErr, true, true
+		outcome = "cde"
 	case outcome == "sde":
 		di.Err = sdeErr
 	case outcome == "nr":
@@ -1315,6 +1342,11 @@ func (w *poolWorld) doDone(i int, outcome string) {
 				outcome, slot, creations, expect, slot.deCnt, w.cfg.RefCalls, now.Sub(slot.base).Round(10*time.Microsecond), w.cfg.RefMs, slot.k, slot.refreshing))
 		}
 		if creations == 1 && failed == 0 && created != nil {
+			if old := slot.pending; old != nil && old != created && !old.removed && !old.shutdown {
+				// C03: a refresh may hold ONE extra connection per refreshing channel until the swap
+				w.violate("C03", "C03.R3", "second replacement connection for a channel whose first replacement is still alive",
+					fmt.Sprintf("%v: replacement %v is still connecting and %v was created as well (%d connections for a pool of %d)", slot, old, created, w.liveConns(), len(w.liveSlots())))
+			}
 			slot.refreshing = true
 			slot.pending = created
 			w.nontriv["C07"] = true
